@@ -8,6 +8,13 @@ from .ramexec import Exec, Ctx, Unsupported
 
 
 def _parse_val(txt, ty, ctx):
+    try:
+        return _parse_val2(txt, ty, ctx)
+    except ValueError:
+        raise Unsupported("malformed fact value %r (a loader-error test)" % txt[:20])
+
+
+def _parse_val2(txt, ty, ctx):
     if ty == "i":
         v = int(txt, 0) if txt.lower().startswith(("0x", "0b", "-0x")) else int(txt)
         return sym.u32(v)
